@@ -6,12 +6,30 @@ ACTS = ("Deliver", "Close", "ReadEof", "MakeAuthFail", "WriteGreeting", "RdSelVe
         "RdRepDomLen", "RdRepDom", "RdRepPort")
 
 
+def socks_tunnel_job(ctx):
+    """The tunnel-level slice of MCSocks5 alone (Tier = "tun"): every credentials class (the odd shapes
+    included) x server behaviour, destination x bound address of the reply, through the forwarder's TCP
+    connector (its pipe ends relayed) and through the real Tunnel + HTTP/1.1 / HTTP/2 codecs with the
+    SOCKS5 forwarder, against a scripted SOCKS5 server with a destination behind it. Run by C02 (relay
+    exactness over a SOCKS5 upstream) and C20 (log records of requests failing inside the forwarder)."""
+    ctx.build("c15")
+    s = ctx.tlc("MCSocks5", "MCSocks5.tun.cfg", name="MCSocks5.tun", workers=4, timeout=600, coverage=False)
+    ctx.spec_must_hold(s)
+    r = ctx.harness("c15", ["--vectors", s["out"]], name="c15.tun", env={"VERIF_ROOT": ROOT})
+    r["tlc"] = {"distinct": s["distinct"], "states": s["states"]}
+    c = r["counters"]
+    for k in ("tunnel_level_requests", "forwarder_level_relays"):
+        if c.get(k, 0) == 0:
+            raise ToolError("vacuous run: %s = 0 (%s)" % (k, "; ".join(r.get("notes", []))))
+    return r
+
+
 def run(ctx):
     ctx.build("c15")
     tier = "thorough" if ctx.thorough else "quick"
     s = ctx.tlc("MCSocks5", "MCSocks5.%s.cfg" % tier, workers=8, timeout=1500, require_actions=ACTS)
     ctx.spec_must_hold(s)
-    r = ctx.harness("c15", ["--vectors", s["out"]], name="c15." + tier)
+    r = ctx.harness("c15", ["--vectors", s["out"]], name="c15." + tier, env={"VERIF_ROOT": ROOT})
     c = r["counters"]
     behaviours = c.get("tlc_behaviours_replayed", 0)
     if behaviours == 0:
@@ -19,6 +37,10 @@ def run(ctx):
     for k in ("brute_force_chunkings", "forwarder_level_requests", "udp_wrap_vectors", "udp_unwrap_vectors"):
         if c.get(k, 0) == 0:
             raise ToolError("vacuous run: %s = 0 (%s)" % (k, "; ".join(r.get("notes", []))))
+    # the tunnel-level slice: a TLC run of its own (same module and invariants), replayed at every level
+    tj = socks_tunnel_job(ctx)
+    tc = tj["counters"]
+    behaviours += tc.get("tlc_behaviours_replayed", 0)
     # the parsers of untrusted octets (the C09 part of this dialogue): verdicts from the grammar
     t = ctx.tlc("MCSocks5Tot", "MCSocks5Tot.%s.cfg" % tier, workers=4, timeout=600, coverage=False)
     ctx.spec_must_hold(t)
@@ -31,10 +53,12 @@ def run(ctx):
     ev = sum(x["evaluations"] for x in ctx.harness_runs)
     nt = sum(x["distinct_nontrivial"] for x in ctx.harness_runs)
     return ctx.finish("model_checking", {
-        "states": s["distinct"], "transitions": s["states"],
+        "states": s["distinct"] + tj["tlc"]["distinct"], "transitions": s["states"] + tj["tlc"]["states"],
         "traces_validated_against_impl": behaviours,
         "replayed_behaviours": behaviours,
         "forwarder_level_requests": c.get("forwarder_level_requests", 0),
+        "forwarder_level_relays": c.get("forwarder_level_relays", 0) + tc.get("forwarder_level_relays", 0),
+        "tunnel_level_requests": tc.get("tunnel_level_requests", 0),
         "brute_force_chunkings": c.get("brute_force_chunkings", 0),
         "udp_header_vectors": c.get("udp_wrap_vectors", 0) + c.get("udp_unwrap_vectors", 0),
         "parser_vectors": rt["counters"].get("reply_vectors", 0) + rt["counters"].get("udp_unwrap_vectors", 0),
@@ -46,13 +70,18 @@ def run(ctx):
                 "written, the octets taken and the result; each unsegmented behaviour is additionally run under every "
                 "1- and 2-cut (3-cut thorough) chunking and octet by octet against the outcome TLC predicts; the "
                 "dialogues a server ends exactly where the client stops are replayed through the forwarder's TCP "
-                "connector over loopback TCP (request-level result classes); RFC 1928 section 7 vectors go through a "
-                "real UdpAssociation and a loopback relay. Non-trivial = credentials present, or more than one chunk, "
+                "connector over loopback TCP (request-level result classes; after success the pipe ends it returns are "
+                "relayed: what its source delivers must be the destination's octets, what the server receives the messages "
+                "and the upload); the tunnel-level slice (every credentials class x servers that accept / refuse / answer "
+                "out of turn, destination x bound address, UDP multiplexer requests with credentials) additionally runs "
+                "through the real Tunnel + HTTP/1.1 and HTTP/2 codecs with the SOCKS5 forwarder against a scripted SOCKS5 "
+                "server on loopback TCP (octets at the server, response class, octets and end of stream at the client); "
+                "RFC 1928 section 7 vectors go through a real UdpAssociation and a loopback relay. Non-trivial = credentials present, or more than one chunk, "
                 "or a result other than Established; distinct by (scenario class, chunking).",
         "samples": r["samples"][:4],
         "exhaustive": True,
         "explanation": "TLC checks WellFormedOrSilent, OfferedReflectsCreds, OnlySelectedOffered, SplitAtFirstColon, "
-                       "DestFaithful, ProceedsOnlyOnSuccess, FailureMapping and SegIndependent on the dialogue model; "
+                       "DestFaithful, ProceedsOnlyOnSuccess, FailureMapping, TunnelIsDestination and SegIndependent on the dialogue model; "
                        "the real client is bound by step-wise replay of every TLC behaviour.",
     }, assumptions=[
         "lengths: user/password in {0,1,255,256,600} octets (ASCII and two-byte UTF-8), SNI tokens 32/255/256, names 0/1/254/255/256/300; other lengths are not explored",
@@ -62,5 +91,7 @@ def run(ctx):
         "UTF-8 validity in the model covers ASCII, C3xx and invalid lead bytes only",
         "UDP ASSOCIATE success is exercised only towards the harness's IPv4 loopback relay; loopback UDP is assumed not to lose single datagrams",
         "over real TCP only dialogues in which the client reads the server's stream to its end are replayed (a reset could otherwise destroy octets the scripted server has not read)",
+        "destinations: besides plain IPv4/IPv6 literals the IPv6 forms that embed an IPv4 address (mapped, compatible, NAT64, 6to4) and the wildcard / loopback / broadcast addresses",
+        "tunnel level: only what an HTTP request can carry (destinations that are an authority, request heads of at most 1024 octets over HTTP/1.1, no non-ASCII User-Agent); the response status is compared as 200 / not 200 (the status of each failure class is C01's); the scripted server says all it has to say at once and ends its side once the client's octets arrived",
         "trusted: TLC, the scripted transport and relay in the harness, the doors verif::socks",
     ])
